@@ -380,7 +380,8 @@ def native_replay(pid, contract, ob, repo, more_clauses=None):
         return info
     I.loopspecs, I.contracts = saved_loops, saved_contracts
     args = holder['args']
-    call_args = [v for k, v in args.items() if not k.startswith('_')]
+    arg_names = S.arg_order(fn, args)
+    call_args = [args[k] for k in arg_names]
     try:
         memo = {}
         enc_args = [encode(I, a, memo) for a in call_args]
@@ -409,7 +410,7 @@ def native_replay(pid, contract, ob, repo, more_clauses=None):
             return info
         out = json.load(open(op))
     info['raw'] = out
-    info['names'] = [k for k in args.keys() if not k.startswith('_')]
+    info['names'] = arg_names
     info['observed'] = {'raised': out.get('raised'), 'message': out.get('message'), 'result': out.get('result'),
                         'device_requests': out.get('dev'), 'clock_requests': out.get('clk'), 'stdout': out.get('stdout')}
     kind = ob.get('kind')
@@ -432,7 +433,7 @@ def native_replay(pid, contract, ob, repo, more_clauses=None):
     memo = {'__stubs__': memo.get('__stubs__', {})}
     post_args = [decode(I, a, memo) for a in out['args_after']]
     result = decode(I, out['result'], memo)
-    names = [k for k in args.keys() if not k.startswith('_')]
+    names = arg_names
     verdict = {}
 
     def evalclause():
@@ -540,6 +541,9 @@ def _link_old(I, pre, post, seen=None):
         snap[id(post)] = dict(pre.d)
 
 
+HOSTILE_STRINGS = ['a\\nb', 'x{0}y', '{', 'a"b', "it's <b>&amp;", 'two words', '\\', '0', ' ']
+
+
 def write_replay(pid, r, ob, contracts, repo):
     d = os.path.join(OUT, 'replays', pid)
     os.makedirs(d, exist_ok=True)
@@ -564,6 +568,20 @@ def write_replay(pid, r, ob, contracts, repo):
         except Exception as e:
             import traceback
             res = {'reproduced': False, 'why': 'replay machinery failed: %s' % traceback.format_exc()[-600:]}
+        if not res.get('reproduced') and hook is None and any(isinstance(v, str) for v in (ob.get('inputs') or {}).values()):
+            # the solver's strings are arbitrary (often empty); where string VALUES matter (escapes, braces, quotes)
+            # look for a failing input among hostile texts before giving up
+            for cand in HOSTILE_STRINGS:
+                ob2 = dict(ob, inputs={k: (cand if isinstance(v, str) and not v.startswith('unrepresentable') else v)
+                                       for k, v in ob['inputs'].items()})
+                try:
+                    res2 = native_replay(pid, c, ob2, repo)
+                except Exception:
+                    continue
+                if res2.get('reproduced'):
+                    res = dict(res2, witness_search='string inputs replaced by the hostile text %r' % cand)
+                    rec['model_inputs'] = ob2['inputs']
+                    break
         rec['replay'] = res
         reproduced = bool(res.get('reproduced'))
     rec['reproduced'] = reproduced
